@@ -156,6 +156,8 @@ def finish(ex: Exec, contract: Contract, outcome):
     for path, (typ, v0) in ex.input_shapes.items():
         if path in mods or any(path.startswith(m + ".") for m in mods):
             continue
+        if "!" in path:
+            continue      # a field of an object allocated by this call (fresh name): not part of the entry state
         # in an alias world a field reached through the aliased name is governed by the canonical path's frame
         ali = next((a for a in aliased if path.startswith(a + ".")), None)
         if ali is not None:
